@@ -4,6 +4,7 @@ import (
 	"encoding/json"
 	"fmt"
 	"strings"
+	"verifharness/sut"
 
 	"github.com/trustbloc/sidetree-go/pkg/document"
 	"github.com/trustbloc/sidetree-go/pkg/patch"
@@ -179,6 +180,7 @@ func c14Constructors(c *fw.Case) {
 		{"NewReplacePatch", "replace", "document", replaceDoc, func() (patch.Patch, error) { return patch.NewReplacePatch(js(replaceDoc)) }},
 		{"NewJSONPatch", "ietf-json-patch", "patches", freeOps, func() (patch.Patch, error) { return patch.NewJSONPatch(js(freeOps)) }},
 	}
+	var kept []keptBytes
 	for _, ct := range ctors {
 		c.Count("constructors", 1)
 		c.Evals(3)
@@ -241,7 +243,32 @@ func c14Constructors(c *fw.Case) {
 		if ct.name == "NewAddPublicKeysPatch" {
 			c.Sample(map[string]interface{}{"constructor": ct.name, "bytes": string(b)})
 		}
+		kept = append(kept, keptBytes{ct.name, g1, b, append([]byte{}, b...)})
 	}
+	// the byte strings handed out stay what they were while other patches and documents are serialized: each is parsed only now
+	if d, err := sut.ToDoc(map[string]interface{}{"publicKey": keys, "note": "serialized in between"}); err == nil {
+		d.Bytes()
+	}
+	for _, k := range kept {
+		c.Count("retained-bytes-parsed-later", 1)
+		c.Evals(1)
+		if string(k.b) != string(k.copyAtOnce) {
+			c.Failf("bytes-changed-after-return:"+k.name, map[string]interface{}{"constructor": k.name, "at_return": string(k.copyAtOnce), "now": string(k.b)}, "the byte slice returned by Bytes() changed after later serializations")
+			continue
+		}
+		back, err := patch.FromBytes(k.b)
+		g2, _ := oracle.Generic(back)
+		if err != nil || !oracle.JSONEqual(k.patch, g2) {
+			c.Failf("bytes-roundtrip-differs:"+k.name, map[string]interface{}{"constructor": k.name, "bytes": string(k.b), "err": fmt.Sprint(err)}, "FromBytes of bytes retained while other patches were serialized is not an equal patch")
+		}
+	}
+}
+
+type keptBytes struct {
+	name       string
+	patch      interface{}
+	b          []byte
+	copyAtOnce []byte
 }
 
 func c14BadBytes(c *fw.Case) {
